@@ -63,9 +63,9 @@ def parse_ops(case):
     for line in case.ops:
         t = line.split()
         if t[0] == "A":
-            allowed[int(t[1])] = [] if t[2] == "-" else [int(v) for v in t[2].split(",")]
+            allowed[int(t[1])] = [] if t[2] == "-" else (range(65536) if t[2] == "*" else [int(v) for v in t[2].split(",")])
         elif t[0] in ("B", "F"):
-            out.append((t[0], int(t[1]), bytes.fromhex(t[2]) if t[2] != "-" else b"", list(allowed.get(int(t[1]), [5, 7, 9, 10]))))
+            out.append((t[0], int(t[1]), bytes.fromhex(t[2]) if t[2] != "-" else b"", allowed.get(int(t[1]), [5, 7, 9, 10])))
         elif t[0] in ("E5", "E7"):
             out.append((t[0], None, None, t[1:]))
     return out
@@ -237,4 +237,174 @@ def c08(case, obs, crash):
                 if X[j] != x[pos : pos + n].hex():
                     f.append((None, "op %d: V5/V7 element %d: to_be_bytes differs from the %d bytes at offset %d" % (k, j, n, pos)))
             pos += n
+    return f
+
+
+# ---------------------------------------------------------------- helpers for multi-parser cases
+
+def by_parser(case, obs):
+    """-> dict parser -> list of (op tuple, observation) in order (B ops only)"""
+    ops = [o for o in parse_ops(case)]
+    out = {}
+    for op, o in zip(ops, obs):
+        if op[0] == "B":
+            out.setdefault(op[1], []).append((op, o))
+    return out
+
+
+def results_of(pairs):
+    """concatenated result list and final caches of a parser's calls"""
+    R = []
+    S = None
+    for _op, o in pairs:
+        r = get(o, "R")
+        if isinstance(r, list) and not isinstance(r, canon.Pairs):
+            R.extend(r)
+        S = get(o, "S", S)
+    return R, S
+
+
+def has_error(R):
+    return any(elem_kind(e) == "Error" for e in R)
+
+
+# ---------------------------------------------------------------- C11
+
+def c11(case, obs, crash):
+    """meta: parser 0 got everything in one call; the other parsers got the same packet
+    sequence under other partitions.  Results and final caches must coincide (only demanded
+    when no packet of the sequence is rejected)."""
+    f = []
+    bp = by_parser(case, obs)
+    if 0 not in bp:
+        return f
+    R0, S0 = results_of(bp[0])
+    if has_error(R0):
+        return f
+    for k in sorted(bp):
+        if k == 0:
+            continue
+        Rk, Sk = results_of(bp[k])
+        if has_error(Rk):
+            return f
+        d = canon.diff(R0, Rk, "R")
+        if d:
+            f.append((None, "one call vs partition on parser %d: %s" % (k, d)))
+        d = canon.diff(S0, Sk, "S")
+        if d:
+            f.append((None, "final caches, one call vs partition on parser %d: %s" % (k, d)))
+    return f
+
+
+# ---------------------------------------------------------------- C12
+
+def elem_version(e):
+    k = elem_kind(e)
+    if k == "V5":
+        return 5
+    if k == "V7":
+        return 7
+    if k == "V9":
+        return 9
+    if k == "IPFix":
+        return 10
+    rem = get(elem_body(e), "remaining")
+    if len(rem) >= 2:
+        return rem[0] * 256 + rem[1]
+    return None
+
+
+def c12(case, obs, crash):
+    """parser 0: allowed set S; parser 1: every version allowed, same buffers; parser 2 (when
+    present): every version allowed, fed only the prefix before the first disallowed packet."""
+    f = []
+    bp = by_parser(case, obs)
+    if 0 not in bp or 1 not in bp:
+        return f
+    for (op0, o0), (op1, o1) in zip(bp[0], bp[1]):
+        allowed = op0[3]
+        R0 = get(o0, "R")
+        R1 = get(o1, "R")
+        if not isinstance(R0, list) or not isinstance(R1, list):
+            continue
+        want = []
+        for e in R1:
+            v = elem_version(e)
+            if v is not None and v not in allowed:
+                break
+            want.append(e)
+        d = canon.diff(want, R0, "R")
+        if d:
+            f.append((None, "allowed %s: result is not the all-allowed result cut at the first disallowed version: %s" % (allowed, d)))
+        for e in R0:
+            if elem_kind(e) == "Error":
+                err = get(elem_body(e), "error")
+                if err[0][0] == "UnknownVersion":
+                    rem = bytes(get(elem_body(e), "remaining"))
+                    v = rem[0] * 256 + rem[1]
+                    if v in (5, 7, 9, 10) or v not in allowed or bytes(err[0][1]) != rem[2:]:
+                        f.append((None, "UnknownVersion error for version %d (allowed %s)" % (v, allowed)))
+    if 2 in bp and len(bp[0]) == 1 and len(bp[2]) == 1:
+        d = canon.diff(get(bp[0][0][1], "S"), get(bp[2][0][1], "S"), "S")
+        if d:
+            f.append((None, "caches after the filtered call differ from the caches after the allowed prefix alone: %s" % d))
+        d = canon.diff(get(bp[0][0][1], "R"), get(bp[2][0][1], "R"), "R")
+        if d and not has_error(get(bp[2][0][1], "R") or []):
+            f.append((None, "filtered result differs from the result of the allowed prefix alone: %s" % d))
+    return f
+
+
+# ---------------------------------------------------------------- C14
+
+def c14(case, obs, crash):
+    """meta['cuts']: parser k -> (version, prefix bytes, cut packet bytes, on_boundary);
+    meta['ref']: parser that got only the prefix"""
+    f = []
+    bp = by_parser(case, obs)
+    cuts = case.meta.get("cuts", {})
+    ref = case.meta.get("ref")
+    if ref not in bp:
+        return f
+    Rref, Sref = results_of(bp[ref])
+    if has_error(Rref):
+        return f
+    for k, (ver, pre, cutp, boundary) in cuts.items():
+        if k not in bp:
+            continue
+        Rk, Sk = results_of(bp[k])
+        if boundary:
+            continue
+        if not Rk or elem_kind(Rk[-1]) != "Error":
+            f.append((None, "V%d packet cut at %d of its bytes: last element is %s, not an error" % (ver, len(cutp), elem_kind(Rk[-1]) if Rk else "missing")))
+            continue
+        if bytes(get(elem_body(Rk[-1]), "remaining")) != cutp:
+            f.append((None, "V%d packet cut at %d: error remaining is not the truncated packet" % (ver, len(cutp))))
+        d = canon.diff(Rref, Rk[:-1], "R")
+        if d:
+            f.append((None, "V%d packet cut at %d: packets before it changed: %s" % (ver, len(cutp), d)))
+        if ver != 9:
+            d = canon.diff(Sref, Sk, "S")
+            if d:
+                f.append((None, "truncated V%d packet changed the caches: %s" % (ver, d)))
+    return f
+
+
+# ---------------------------------------------------------------- C16
+
+def c16(case, obs, crash):
+    """JSON well-formed (parsed by Python's strict reader already), same text twice, same text
+    from twin parsers fed the same history"""
+    f = []
+    for k, o in enumerate(obs):
+        if get(o, "UNPARSEABLE") is not None:
+            f.append((None, "op %d: serde_json output is not well-formed JSON: %s" % (k, get(o, "UNPARSEABLE"))))
+        if get(o, "R") in ("SERERR", "PANIC"):
+            f.append((None, "op %d: serialization failed: %s" % (k, get(o, "R"))))
+        if get(o, "same") is False:
+            f.append((None, "op %d: serializing the same result twice gave different text" % k))
+    bp = by_parser(case, obs)
+    if case.meta.get("twins") and 0 in bp and 1 in bp:
+        for (op0, o0), (op1, o1) in zip(bp[0], bp[1]):
+            if canon.diff(get(o0, "R"), get(o1, "R"), "R"):
+                f.append((None, "twin parsers fed the same history serialize differently: %s" % canon.diff(get(o0, "R"), get(o1, "R"), "R")))
     return f
